@@ -532,3 +532,22 @@ package pbft
 //@   atcall createProposalBlock assert [new-block-only-when-not-locked] cs.RoundState.LockedBlock == nil
 //@   atcall NewProposal assert [locked-validator-reproposes-its-locked-block] (old(cs.RoundState.LockedBlock) != nil ==> calls(createProposalBlock) == 0 && calls(Header) == 1) && arg_height == height && arg_round == round
 //@   atcall Header assert [proposal-names-the-parts-of-the-chosen-block] old(cs.RoundState.LockedBlock) != nil ==> arg_ps == old(cs.RoundState.LockedBlockParts)
+
+// restart (C07): the round state is rebuilt in this order - the state is installed first (updateToState clears the last
+// commit of a fresh object), then the last commit is rebuilt from the stored seen-commit, then the log is opened
+//@ func NewConsensusState
+//@   props C07
+//@   orderonly
+//@   atcall updateToState assert [state-installed-first] calls(reconstructLastCommit) == 0 && arg_state == state
+//@   atcall reconstructLastCommit assert [last-commit-rebuilt-after-the-state-was-installed] calls(updateToState) == 1 && arg_state == state
+//@   atcall OpenWAL assert [log-opened-after-the-round-state-is-rebuilt] calls(updateToState) == 1 && calls(reconstructLastCommit) == 1
+
+// start (C07): the height marker that is looked up (and written when it is missing) and the height that is replayed are the
+// height the consensus state is at - the marker of a height must be in the log before any input of that height
+//@ func (*ConsensusState).OnStart
+//@   props C07
+//@   requires cs != nil
+//@   orderonly
+//@   atcall makeHeightSearchFunc assert [marker-looked-up-for-the-current-height] arg_height == cs.Height && calls(catchupReplay) == 0
+//@   atcall Save assert [missing-marker-written-before-the-replay] calls(catchupReplay) == 0 && calls(makeHeightSearchFunc) == 1
+//@   atcall catchupReplay assert [current-height-replayed-after-the-marker-check] arg_csHeight == cs.Height && calls(makeHeightSearchFunc) == 1
